@@ -175,8 +175,7 @@ pub fn prop() -> Prop {
                 name: "random-plain",
                 kind: Kind::Random {
                     f: random_plain,
-                    quick: 24_000,
-                    thorough: 2_400_000,
+                    quick: 192_000, thorough: 3_840_000,
                     len: 400,
                 },
             },
@@ -184,8 +183,7 @@ pub fn prop() -> Prop {
                 name: "random-special",
                 kind: Kind::Random {
                     f: random_special,
-                    quick: 8_000,
-                    thorough: 800_000,
+                    quick: 64_000, thorough: 1_280_000,
                     len: 400,
                 },
             },
